@@ -852,22 +852,25 @@ fn fam_c(range_i: usize, ctx: &mut Ctx) {
 
 #[derive(Clone, Copy, Debug)]
 enum Src {
-	/// tweener: set(target, duration in full chunks, easing) before callback 1
-	Tw { init: f64, target: f64, d: f64, e: Easing },
+	/// tweener: set(target, duration in full chunks, easing) before callback `at` (0 = right after add_modulator,
+	/// before the audio thread has seen the modulator)
+	Tw { init: f64, target: f64, d: f64, e: Easing, at: usize },
 	/// LFO with `cyc` cycles per full chunk
 	Lfo { wf: Wf, cyc: f64, a: f64, o: f64, ph: f64 },
 }
 fn sources() -> Vec<Src> {
 	let mut v = vec![
-		Src::Tw { init: 0.0, target: 1.0, d: 3.5, e: Easing::Linear },
-		Src::Tw { init: 1.5, target: -0.5, d: 5.0, e: Easing::InPowi(2) },
+		Src::Tw { init: 0.0, target: 1.0, d: 3.5, e: Easing::Linear, at: 1 },
+		Src::Tw { init: 1.5, target: -0.5, d: 5.0, e: Easing::InPowi(2), at: 1 },
 		Src::Lfo { wf: Wf::Sine, cyc: 0.11, a: 1.0, o: 0.5, ph: PI / 2.0 },
 		Src::Lfo { wf: Wf::Tri, cyc: 0.3, a: -2.0, o: 0.0, ph: 0.0 },
 		Src::Lfo { wf: Wf::Saw, cyc: 1.25, a: 1.0, o: 0.5, ph: PI },
 		Src::Lfo { wf: Wf::Pulse(0.25), cyc: 0.19, a: 1.0, o: 0.0, ph: 0.0 },
 	];
 	{
-		v.push(Src::Tw { init: -1.0, target: 2.0, d: 0.0, e: Easing::Linear });
+		v.push(Src::Tw { init: -1.0, target: 2.0, d: 0.0, e: Easing::Linear, at: 1 });
+		v.push(Src::Tw { init: 0.25, target: 1.0, d: 2.5, e: Easing::Linear, at: 0 });
+		v.push(Src::Tw { init: 2.0, target: -1.0, d: 0.0, e: Easing::Linear, at: 0 });
 		v.push(Src::Lfo { wf: Wf::Pulse(0.5), cyc: 2.3, a: 0.5, o: 0.5, ph: 5.0 * PI });
 		v.push(Src::Lfo { wf: Wf::Sine, cyc: 1.0, a: 1.0, o: 0.0, ph: 3.0 * PI / 2.0 });
 		v.push(Src::Lfo { wf: Wf::Saw, cyc: 0.07, a: -2.0, o: 0.5, ph: 0.0 });
@@ -921,7 +924,7 @@ struct DCase {
 impl DCase {
 	fn text(&self) -> String {
 		format!(
-			"manager(sample_rate 8, internal_buffer_size {}); modulators in creation order: X = tweener(0.7){}, S = {:?} (durations/cycles per full chunk of {} s), target {} linked to S through Mapping{{input ({}, {}), output {}, {:?}}} [{}]; callbacks of {:?} frames; tweener S.set before callback 1{}{}",
+			"manager(sample_rate 8, internal_buffer_size {}); modulators in creation order: X = tweener(0.7){}, S = {:?} (durations/cycles per full chunk of {} s), target {} linked to S through Mapping{{input ({}, {}), output {}, {:?}}} [{}]; callbacks of {:?} frames; tweener S.set before callback `at` (0 = right after add_modulator){}{}",
 			self.ibs,
 			if self.link == 2 { ", B = lfo(amplitude 0, offset 0.5)" } else { "" },
 			self.src,
@@ -1136,7 +1139,7 @@ fn chain(c: &DCase, base: &[f32], ctx: &mut Ctx) -> bool {
 	let mut buf = vec![0.0f32; 2 * (2 * c.ibs + 2)];
 	for (j, n) in schedule(c.ibs).into_iter().enumerate() {
 		// ---- gameplay-thread events before callback j
-		if j == 1 {
+		if matches!(c.src, Src::Tw { at, .. } if at == j) {
 			if let (Some(SrcH::Tw(h)), Src::Tw { target, d, e, .. }, SrcM::Tw(tm)) = (s.as_mut(), c.src, &mut sm) {
 				h.set(target, tween(d * t_chunk, e));
 				tm.set(target, d * t_chunk, e, None);
